@@ -121,7 +121,17 @@ def cli_program(case, inline=False):
     return src + "b: %s = %s\nprint a %s b\n" % (DECL[case[2][0]], lb, nc.SYMBOL[op])
 
 
+# cases written BOTH ways (operands through variables, and as literals inside the expression) whatever the seed: the
+# sign rules of / and %, the extremes, mixed kinds
+BOTH_WAYS = [("rem", "I-7", "I3"), ("rem", "I-7", "I-3"), ("rem", "I7", "I-3"), ("div", "I-7", "I2"), ("div", "I7", "I-2"),
+             ("rem", "B-7", "I3"), ("rem", "I-7", "B3"), ("rem", "I-2147483648", "I10"), ("div", "B-7", "B2"), ("rem", "Y7", "Y3"),
+             ("mul", "I-3", "I-4"), ("sub", "I-3", "I-4"), ("rem", "F" + "c01c000000000000", "I3"), ("shr", "I-8", "I1"), ("shl", "I-1", "I3"),
+             ("and", "I-1", "I255"), ("or", "I-8", "I1"), ("lt", "I-1", "B0"), ("eq", "I3", "F4008000000000000")]
+
+
 def is_inline(i):
+    if i < 2 * len(BOTH_WAYS):
+        return i % 2 == 1
     return i % 3 == 2
 
 
@@ -152,7 +162,9 @@ def run_cli(ctx, binary, cases):
 def cli_cases(ctx, n):
     rng = ctx.rng
     bset = {k: [v for v in nc.boundary_values(k) if nc.literal(v) is not None] for k in KINDS}
-    out = [("add", "I2147483647", "I1"), ("div", "F3ff8000000000000", "Y0"), ("rem", "I-2147483648", "I-1"),
+    out = [c for c in BOTH_WAYS if c[0] in nc.BINOPS for _ in (0, 1)]
+    assert len(out) == 2 * len(BOTH_WAYS), [c for c in BOTH_WAYS if c[0] not in nc.BINOPS]
+    out += [("add", "I2147483647", "I1"), ("div", "F3ff8000000000000", "Y0"), ("rem", "I-2147483648", "I-1"),
            ("neg", "I-2147483648"), ("mul", "B%d" % nc.I128_MAX, "Y2"), ("sub", "Y0", "Y1"), ("div", "I7", "Y0"),
            ("not", "Ttrue"), ("not", "Tfalse"), ("shl", "I1", "I32"), ("shl", "Y255", "Y1"), ("ne", "F7ff8000000000000", "I1"),
            ("shl", "I1", "I31"), ("shl", "I3", "I31"), ("shl", "I1", "I31"), ("shl", "B3", "I127"), ("shl", "I-1", "I31"), ("shl", "Y128", "Y1")]
